@@ -38,3 +38,14 @@ Fixpoint utf8_go (k : nat) (s : list Z) : bool :=
     end
   end.
 Definition utf8_valid (s : list Z) : bool := utf8_go 0 s.
+
+(* ---- a content clause that needs no well-formedness: the bytes that belong to NO white-space
+   character's encoding ("hard" bytes) are kept, in order, by any function that only removes or
+   inserts white-space characters - whatever the other bytes are (Latin-1 text, truncated or
+   over-long sequences).  White-space encodings: 09-0D 20 | C2 85 | C2 A0 | E1 9A 80 |
+   E2 80 80..8A | E2 80 A8 | E2 80 A9 | E2 80 AF | E2 81 9F | E3 80 80. ---- *)
+Definition ws_byte (b : Z) : bool :=
+  ((9 <=? b) && (b <=? 13)) || (b =? 32) || ((128 <=? b) && (b <=? 138))
+  || (b =? 154) || (b =? 159) || (b =? 160) || (b =? 168) || (b =? 169) || (b =? 175)
+  || (b =? 194) || (b =? 225) || (b =? 226) || (b =? 227).
+Definition hard_bytes (s : list Z) : list Z := filter (fun b => negb (ws_byte b)) s.
